@@ -257,6 +257,10 @@ func propC19(p *Prog, r *Report) {
 	c19Guards(p, r, mar, unm)
 	c19Keys(p, r)
 	c19GetAll(p, r)
+	r.Rule("C19.g", "the decoder accepts what the encoder produces: unmarshalFile fails only for records shorter than the fixed header")
+	c19RejectsOnlyShortRecords(p, r, "C19.g")
+	r.Rule("C19.h", "GetAll decodes every record it read: no record is skipped")
+	c19GetAllDecodesEverything(p, r, "C19.h")
 	r.Rule("C19.f", "the bytes handed to the decoder are the bytes stored: in the Badger layer, key and value bytes of iterator items are copied before they leave the iteration (Badger recycles the buffers of iterator items)")
 	c19IteratorCopies(p, r, "C19.f")
 	r.Rule("C19.e", "independent decoding: the decoder assigns every field on every success path, or every call site decodes into a fresh record")
